@@ -221,6 +221,52 @@ def h_json(ctx):
     return Outcome("json-ok" if not vs else "json-bad", vs, nontrivial=("json", repr(obj), seq))
 
 
+def h_json_sequence(ctx):
+    """Two headers encoded one after the other, the second one equal to the first as Python compares (1 / 1.0 / true, 0 / false / -0.0) or the
+    very same object edited below its top level: each encoding decodes, with JSON types, to the header that was encoded."""
+    from .c07 import TWIN_VALUES, typed
+    u = _util()
+    shape = ctx.choose("second_header_is", ["another object, values of other JSON types", "the same object, a nested value edited in place",
+                                            "the same object, a nested list extended in place", "an equal copy"])
+    where = ctx.choose("value_sits", ["top-level", "in a nested object", "in a nested list"])
+    first = ctx.choose("first", TWIN_VALUES)
+    second = ctx.choose("second", TWIN_VALUES if shape.startswith("another") else TWIN_VALUES[:1])
+
+    def mk(v):
+        if where == "top-level":
+            return {"alg": "HS256", "ver": v, "jwk": {"kty": "oct", "kid": "2025-01"}, "list": ["a"]}
+        if where == "in a nested object":
+            return {"alg": "HS256", "jwk": {"kty": "oct", "kid": "2025-01", "ver": v}, "list": ["a"]}
+        return {"alg": "HS256", "jwk": {"kty": "oct", "kid": "2025-01"}, "list": ["a", v]}
+    h1 = mk(first)
+    r1 = call(u.json_b64encode, h1)
+    if shape.startswith("another"):
+        h2 = mk(second)
+    elif shape == "an equal copy":
+        h2 = json.loads(json.dumps(h1))
+    else:
+        h2 = h1
+        if "nested value" in shape:
+            h2["jwk"]["kid"] = "2025-02"
+        else:
+            h2["list"].append("b")
+    want2 = json.loads(json.dumps(h2))
+    r2 = call(u.json_b64encode, h2)
+    vs = []
+    what = f"first {first!r}, then {shape} ({second!r}), value {where}"
+    for n, (r, want) in enumerate(((r1, None), (r2, want2))):
+        if not r.ok:
+            vs.append(viol("json_b64encode raises " + r.etype, what))
+            continue
+        if want is None:
+            continue
+        d = call(u.json_b64decode, r.value)
+        if not d.ok or typed(d.value) != typed(want):
+            vs.append(viol("json decode(encode(x)) != x for a header encoded after one that compares equal to it", f"{what}: encoded {want!r}, decodes to {d.value!r} {d.etype}"))
+    same_json = r1.ok and r2.ok and r1.value == r2.value
+    return Outcome(("json-seq-ok" if not vs else "json-seq-bad") + (":same-text" if same_json else ":other-text"), vs, nontrivial=(shape, where, repr(first), repr(second)))
+
+
 def long_lengths():
     out = set()
     for k in range(8, 21):
@@ -381,6 +427,7 @@ PARTS = [
     Part("int-minimal", h_int, split_depth=1),
     Part("int-fixed-width", h_fixed_int, split_depth=1),
     Part("json-header", h_json, split_depth=1),
+    Part("json-headers-in-sequence", h_json_sequence, split_depth=1),
 ]
 for _p in PARTS:
     if _p.name in ("int-minimal", "json-header", "int-fixed-width", "b64-long-inputs", "jwk-integer-members", "text-segments", "after-a-call-that-raised"):
